@@ -158,3 +158,8 @@ def build(repo, tier, seed):
                       explanation="C03: table entries (256 concrete obligations against the bit-serial step), _next == bit-serial step over all 2^24 (register, octet) pairs as one bit-vector query, "
                                   "update/is_good/checksum contracts, compute_checksum loop invariant fcs == fcs_fold(data,start,i) with IndexError exactly when the window leaves the data, "
                                   "residue lemma and is_good characterisation by two unfoldings; unbounded in the message length (induction = loop invariant / recursive fold)")
+
+def fallback(repo, tier, seed):
+    from pyvc import run
+    b = run.rt_call("C03", "differential", {"seed": seed, "n": 2000 if tier == "quick" else 40000})
+    return [b if "name" in b else {"name": "differential", "error": b.get("error", b)}]
